@@ -78,7 +78,7 @@ PINNED = [
     ('hideset_intersection', r'for \(; hs1; hs1 = hs1->next\) if \(hideset_contains\(hs2, hs1->name, strlen\(hs1->name\)\)\) '
                              r'cur = cur->next = new_hideset\(hs1->name\); return head\.next;', 'hideset_intersection = filter of hs1'),
     ('join_tokens', r'if \(t != tok && \(t->has_space \|\| t->at_bol\)\) buf\[pos\+\+\] = \' \';', 'join_tokens spacing test'),
-    ('paste', r'if \(tok->next->kind != TK_EOF\) error_tok\(.*?tok->at_bol = lhs->at_bol; tok->has_space = lhs->has_space; tok->line_no = lhs->line_no; return tok;',
+    ('paste', r'if \(tok->kind == TK_EOF \|\| tok->next->kind != TK_EOF\) error_tok\(.*?tok->at_bol = lhs->at_bol; tok->has_space = lhs->has_space; tok->line_no = lhs->line_no; return tok;',
      'paste: single-token test and flags of the result'),
     ('read_macro_arg_one', r'if \(level == 0 && equal\(tok, "\)"\)\) break; if \(level == 0 && !read_rest && equal\(tok, ","\)\) break; '
                            r'if \(tok->kind == TK_EOF\) error_tok\(tok, "premature end of input"\); '
